@@ -55,24 +55,44 @@ class ConsumerCluster(Cluster):
     storm = False
     cps_mark = 0
 
+    RTT = 0.002  # network round trip applied once a connection sends Fetch after Fetch without virtual time advancing
+    BURST = 20
+    DATA_REPEAT_CAP = 30
+
     def __init__(self, *a, **kw):
         super().__init__(*a, **kw)
         self.data_fetches = []  # fetch positions of every Fetch that was answered with data
+        self._burst = {}  # conn -> [time of the last Fetch, consecutive Fetches without an idle gap]
+        self._same_data = [None, 0]
+
+    def h_Fetch(self, conn, req, entry, fault):
+        # Deliveries are instantaneous in the explorer, so a client that re-sends a Fetch the moment the previous one is
+        # answered (e.g. NOT_LEADER while its metadata refresh is queued behind its own long poll on another connection)
+        # would loop forever at one virtual instant.  A real network has latency: after BURST back-to-back fetches on a
+        # connection every further one is answered one RTT later, which lets timers fire.
+        now = self.world.loop.time()
+        st = self._burst.setdefault(conn, [now, 0])
+        if now - st[0] > 5 * self.RTT:
+            st[1] = 0
+        st[0] = now
+        st[1] += 1
+        if st[1] <= self.BURST:
+            return super().h_Fetch(conn, req, entry, fault)
+        self.withhold(conn)
+
+        def later():
+            if not conn.closed:
+                Cluster.h_Fetch(self, conn, req, entry, fault)
+
+        self.world.loop.call_later(self.RTT, later)
 
     def _fetch_body(self, conn, req, forced):
         self.fetch_count += 1
         if self.fetch_count == self.fetch_cap // 4:
             self.cps_mark = len(self.world.chooser.cps)
         if self.fetch_count > self.fetch_cap and not self.storm:
-            # the run is reported as a violation; do not branch the search at the hundreds of choice points of the storm
-            del self.world.chooser.cps[self.cps_mark:]
-            self.world.frozen = True
-            # far more Fetch requests than any correct run of these scenarios needs (typically the same request in a
-            # tight loop without virtual time advancing): end the run, the scenario reports it
-            self.storm = True
-            mt = self.world.main_task
-            if mt is not None and not mt.done():
-                self.world.loop.call_soon(mt.cancel)
+            # far more Fetch requests than any correct run of these scenarios needs: end the run, the scenario reports it
+            self._end_run(f"more than {self.fetch_cap} Fetch requests")
         saved = self.fetch_batch_limit
         plan = self.cut_plan
         if self.one_shot is not None:
@@ -86,9 +106,28 @@ class ConsumerCluster(Cluster):
         if any_data and plan is not None and self.one_shot is None:
             self.cut_i += 1
         if any_data:
-            self.data_fetches.append(tuple((td["topic"], pd["partition"], pd["fetch_offset"])
-                                           for td in req.body["topics"] for pd in td["partitions"]))
+            key = tuple((td["topic"], pd["partition"], pd["fetch_offset"]) for td in req.body["topics"] for pd in td["partitions"])
+            self.data_fetches.append(key)
+            if key == self._same_data[0]:
+                self._same_data[1] += 1
+                if self._same_data[1] == 4:
+                    self._repeat_mark = len(self.world.chooser.cps)
+                if self._same_data[1] > self.DATA_REPEAT_CAP and not self.storm:
+                    self._end_run("the same Fetch was answered with data over and over", self._repeat_mark)
+            else:
+                self._same_data = [key, 1]
         return body, any_data, any_error
+
+    _repeat_mark = 0
+
+    def _end_run(self, why, mark=None):
+        # the run is reported as a violation; do not branch the search at the hundreds of choice points of the storm
+        self.storm = why
+        del self.world.chooser.cps[self.cps_mark if mark is None else mark:]
+        self.world.frozen = True
+        mt = self.world.main_task
+        if mt is not None and not mt.done():
+            self.world.loop.call_soon(mt.cancel)
 
 
 class OrderedWaiters:
@@ -510,7 +549,8 @@ class ConsumerScenario:
                     for e in self.cluster.arrivals if e["api"] == "Fetch"][-6:]
             same = len(set(offs)) <= 2
             self.fail("stall", {"what": "fetch-storm", "same_request_repeated": same},
-                      f"{self.cluster.fetch_count} Fetch requests in one run (cap {self.cluster.fetch_cap}); last fetch offsets {offs}")
+                      f"{self.cluster.storm}: {self.cluster.fetch_count} Fetch requests in one run (cap {self.cluster.fetch_cap}); "
+                      f"last fetch offsets {offs}")
             return
         if mt.done() and not mt.cancelled() and mt.exception() is not None:
             exc = mt.exception()
